@@ -37,6 +37,10 @@ def work(item):
         if kind in ("conj", "herm", "rev"):
             with _patched():
                 {"conj": _w_conj, "herm": _w_herm, "rev": _w_rev}[kind](res, p)
+        elif kind == "pexp":
+            _w_pexp(res, p)
+        elif kind == "sexp":
+            _w_sexp(res, p)
         else:
             _w_ground(res, kind, p)
     except ST.Inconclusive as e:
@@ -174,6 +178,225 @@ def _w_rev(res, p):
     _run(res, dict(p, kind="reverse_qubit_order"), V, fn)
 
 
+
+# ---------------------------------------------------------------------------
+# symbolic Pauli expansion of a generic matrix, symbolic-state expectation
+
+
+def _label_matrix(label, n):
+    """verifier-side matrix of the Pauli string given as a label vector (0=I 1=X 2=Y 3=Z per qubit, qubit 0 leftmost)"""
+    ops = {q: "IXYZ"[int(l)] for q, l in enumerate(label) if int(l) != 0}
+    return PL.dense({PL.key(ops): 1.0}, n)
+
+
+def _matrix_entries(p, V=None, concrete=None):
+    """generic 2^n x 2^n matrix: every entry a symbolic complex number (or the replayed concrete values); 'hermitian'
+    ties entry (j,i) to the conjugate of (i,j), 'real' has no imaginary parts"""
+    N = 2 ** p["n"]
+    M = [[None] * N for _ in range(N)]
+    names = []
+    for i in range(N):
+        for j in range(N):
+            if p["mkind"] == "hermitian" and j < i:
+                continue
+            nm = f"m{i}_{j}"
+            if concrete is not None:
+                re, im = concrete.get(nm + "_re", 0.0), concrete.get(nm + "_im", 0.0)
+                v = complex(re, 0.0 if (p["mkind"] == "real" or (p["mkind"] == "hermitian" and i == j)) else im)
+            else:
+                if p["mkind"] == "real" or (p["mkind"] == "hermitian" and i == j):
+                    v = ST.CV(ST.real_var(nm + "_re"), 0)
+                    names.append(nm + "_re")
+                else:
+                    v = ST.complex_var(nm)
+                    names += [nm + "_re", nm + "_im"]
+            M[i][j] = v
+            if p["mkind"] == "hermitian" and j > i:
+                M[j][i] = v.conjugate()
+    return M, names
+
+
+def _w_pexp(res, p):
+    """get_pauliop_from_matrix on a matrix of symbolic entries: the real expansion loop (decode / trace_product / dec2bin /
+    bin2dec) runs on shadow values up to the hand-over to get_pauliop_from_coeffs_and_labels, which is intercepted (it
+    formats coefficients into text); obligation: sum_i coeff_i * P(label_i) == M entry by entry, for ALL entries."""
+    from orquestra.quantum.operators import _utils as OU
+
+    n = p["n"]
+    N = 2**n
+    M, names = _matrix_entries(p)
+    cap = {}
+
+    def fake(coeffs, labels):
+        cap["c"], cap["l"] = list(coeffs), [list(l) for l in labels]
+        return None
+
+    ex = ST.Explorer(base=[], timeout_ms=8000, logic="auto", max_paths=50)
+
+    records = []
+
+    def fn(e):
+        cap.clear()
+        with ST.patched((OU, "get_pauliop_from_coeffs_and_labels", fake)):
+            out = OU.get_pauliop_from_matrix(M)
+        if "c" not in cap:
+            records.append(("nocall", None, None))
+            return out
+        coeffs, labels = cap["c"], cap["l"]
+        labs = [tuple(int(x) for x in l) for l in labels]
+        if len(coeffs) != len(labels) or any(len(l) != n or any(x not in (0, 1, 2, 3) for x in l) for l in labs):
+            records.append(("labels", None, None))
+            return out
+        mats = [_label_matrix(l, n) for l in labs]
+        for r in range(N):
+            for c in range(N):
+                acc = 0
+                for ci, Pm in zip(coeffs, mats):
+                    x = Pm[r, c]
+                    if x != 0:
+                        acc = acc + ci * (x.real if x.imag == 0 else complex(x))
+                d = ST.CV.lift(acc - M[r][c])
+                v, m = e.prove(z3.And(ST.zr_real(d.re) == 0, ST.zr_real(d.im) == 0))
+                records.append((v, m, (r, c)))
+        return out
+
+    outs = ex.run(fn)
+    res.d["paths"] += ex.npaths
+    res.d["solver_queries"] += ex.queries
+    res.d["solver_s"] += ex.solver_s
+    res.nontrivial()
+    res.d["cuts"].append("get_pauliop_from_matrix: the final call get_pauliop_from_coeffs_and_labels(coeffs, labels) is intercepted (text formatting of coefficients); that function is exercised on concrete coefficients by the ground instances")
+    bad = None
+    for o in outs:
+        if o[0] == "exc":
+            res.ob(1)
+            res.inconc(f"expansion raised on symbolic entries: {type(o[1]).__name__}: {str(o[1])[:120]} (symbolic instance: not executable, no verdict)")
+    for v, m, rc in records:
+        res.ob(1)
+        if v == "holds":
+            res.ob(0, 1, "A:z3")
+        elif v == "violated":
+            if bad is None:
+                bad = (rc[0], rc[1], {nm: ST.model_value(m, z3.Real(nm)) for nm in names})
+        elif v == "labels":
+            res.candidate("expansion-labels", f"{p['label']}: labels handed over are not {n}-qubit Pauli label vectors", dict(p, clause="expansion-labels", values={}), sub="expansion-labels")
+        elif v == "nocall":
+            res.inconc("expansion did not reach the hand-over to get_pauliop_from_coeffs_and_labels")
+        else:
+            res.inconc("z3 unknown", f"entry{rc}")
+    if bad:
+        res.candidate("expansion-reproduces-matrix", f"{p['label']}: sum of coeff*Pauli string differs from the matrix at entry [{bad[0]},{bad[1]}]", dict(p, clause="expansion-reproduces-matrix", values=bad[2]), sub="expansion-reproduces-matrix")
+    res.sample({"pauli expansion": p["label"], "unknowns": len(names)})
+
+
+class _DenseOp:
+    """Stands in for the scipy.sparse matrix returned by the REAL get_sparse_operator on the concrete operator: only
+    `operator * state` is offered, as the dense product (row and column vectors)."""
+
+    def __init__(self, sp):
+        self.M = np.asarray(sp.toarray())
+        self.shape = self.M.shape
+
+    def __mul__(self, state):
+        col = getattr(state, "ndim", 1) == 2
+        out = np.empty(self.M.shape[0], dtype=object)
+        for i in range(self.M.shape[0]):
+            acc = 0
+            for j in range(self.M.shape[1]):
+                m = self.M[i, j]
+                if m != 0:
+                    acc = acc + (m.real if m.imag == 0 else complex(m)) * (state[j, 0] if col else state[j])
+            out[i] = acc
+        return out.reshape(-1, 1) if col else out
+
+
+def _w_sexp(res, p):
+    """expectation / get_expectation_value on a state whose amplitudes are ALL symbolic complex numbers; the sparse matrix
+    is the one the real get_sparse_operator builds for the concrete operator, only its mat-vec is the dense one."""
+    from orquestra.quantum.operators import _utils as OU
+    from orquestra.quantum.operators._openfermion_utils import sparse_tools as SP
+    from orquestra.quantum import wavefunction as WF
+    import numpy
+
+    n = p["n"]
+    N = 2**n
+    amps = [ST.complex_var(f"a{i}") for i in range(N)]
+    names = [f"a{i}_{s}" for i in range(N) for s in ("re", "im")]
+    op = op_from(p["terms"])
+    cm = {k: complex(v) for k, v in _merge(op).items()}
+    if p["reverse"]:
+        cm = {frozenset((n - 1 - q, l) for q, l in k): c for k, c in cm.items()}
+    Mop = PL.dense(cm, n)
+    want = 0
+    for i in range(N):
+        for j in range(N):
+            e = Mop[i, j]
+            if e != 0:
+                want = want + amps[i].conjugate() * (e.real if e.imag == 0 else complex(e)) * amps[j]
+    want = ST.CV.lift(want)
+    norm2 = sum((ST.zr_real(a.re) * ST.zr_real(a.re) + ST.zr_real(a.im) * ST.zr_real(a.im)) for a in amps)
+    real_gso = SP.get_sparse_operator
+    mode = p["mode"]
+    ex = ST.Explorer(base=[norm2 == 1] if mode == "wf" else [], timeout_ms=10000, logic="auto", max_paths=50)
+    stubs = "scipy.sparse mat-vec inside expectation(): the matrix returned by the REAL get_sparse_operator (concrete operator) is wrapped so that `operator * state` is the dense product"
+    res.d["cuts"].append(stubs)
+
+    def fn(e):
+        if mode == "wf":
+            with ST.patched((WF, "np", ST.NpProxy(numpy)), (WF, "float", ST.float_shadow), (WF, "complex", ST.complex_shadow), (OU, "get_sparse_operator", lambda *a, **k: _DenseOp(real_gso(*a, **k)))):
+                wf = WF.Wavefunction(list(amps))
+                return OU.get_expectation_value(op, wf, reverse_operator=p["reverse"]) if p["reverse"] else OU.get_expectation_value(op, wf)
+        st = np.empty(N, dtype=object)
+        for i, a in enumerate(amps):
+            st[i] = a
+        if mode == "col":
+            st = st.reshape(-1, 1)
+        return SP.expectation(_DenseOp(real_gso(op, n)), st)
+
+    records = []
+
+    def fn2(e):
+        got = fn(e)
+        try:
+            d = ST.CV.lift(got - want)
+        except Exception as err:
+            records.append(("type", f"result of type {type(got).__name__} is not a symbolic scalar: {err}", None))
+            return got
+        claim = z3.And(ST.zr_real(d.re) == 0, ST.zr_real(d.im) == 0)
+        records.append(e.prove(claim))
+        return got
+
+    outs = ex.run(fn2)
+    res.d["paths"] += ex.npaths
+    res.nontrivial()
+    okpaths = 0
+    for o in outs:
+        if o[0] == "exc":
+            res.ob(1)
+            if mode == "wf" and isinstance(o[1], ValueError):
+                res.candidate("expectation-raises", f"{p['label']}: raised {type(o[1]).__name__}: {str(o[1])[:100]} on a normalised state", dict(p, clause="expectation-raises", values={}), sub="raises")
+            else:
+                res.inconc(f"the library raised {type(o[1]).__name__}: {str(o[1])[:120]} (symbolic instance: not executable, no verdict)")
+        else:
+            okpaths += 1
+    for rec in records:
+        res.ob(1)
+        v, m = rec[0], rec[1]
+        if v == "holds":
+            res.ob(0, 1, "A:z3")
+        elif v == "violated":
+            vals = {nm: ST.model_value(m, z3.Real(nm)) for nm in names}
+            res.candidate("expectation-is-quadratic-form", f"{p['label']}: value differs from <psi|M|psi> with M the tensor-product matrix", dict(p, clause="expectation-is-quadratic-form", values=vals), sub="expectation-is-quadratic-form")
+        elif v == "type":
+            res.inconc(m if m else rec[1])
+        else:
+            res.inconc("z3 unknown", "expectation-is-quadratic-form")
+    res.d["solver_queries"] += ex.queries
+    res.d["solver_s"] += ex.solver_s
+    if okpaths == 0:
+        res.inconc("no accepting path")
+    res.sample({"symbolic-state expectation": p["label"], "paths": ex.npaths})
+
 # ---------------------------------------------------------------------------
 # ground instances
 
@@ -255,6 +478,20 @@ def matrix_roundtrip_bad(n, seed, kind):
     return None if d < 1e-7 else f"Pauli expansion of a {N}x{N} {kind} matrix converts back with error {d:.3g}"
 
 
+def labels_bad(coeffs, labels):
+    from orquestra.quantum.operators._utils import get_pauliop_from_coeffs_and_labels
+
+    cs = [complex(*c) if isinstance(c, list) else c for c in coeffs]
+    op = get_pauliop_from_coeffs_and_labels(cs, labels)
+    n = len(labels[0]) if labels else 1
+    want = np.zeros((2**n, 2**n), dtype=complex)
+    for c, l in zip(cs, labels):
+        want = want + complex(c) * _label_matrix(l, n)
+    got = PL.dense(PL.cmap_of(op), n)
+    d = np.abs(got - want).max()
+    return None if d < 1e-12 else f"operator built from coefficient and label vectors differs from sum coeff*string by {d:.3g}"
+
+
 def _w_ground(res, kind, p):
     res.d["ground_instances"] += 1
     res.d["instances"] -= 1
@@ -264,6 +501,8 @@ def _w_ground(res, kind, p):
             bad = sparse_bad(p["terms"], p["n"])
         elif kind == "expect":
             bad = expectation_bad(p["terms"], p["n"], p["seed"], p["reverse"])
+        elif kind == "labels":
+            bad = labels_bad(p["coeffs"], p["labels"])
         else:
             bad = matrix_roundtrip_bad(p["n"], p["seed"], p["mkind"])
     except Exception as e:
@@ -328,6 +567,33 @@ def instances(tier, seed):
         for reverse in (False, True):
             for k in range(2 if tier == "quick" else 6):
                 items.append(("expect", {"terms": terms, "n": n, "seed": rng.randrange(10**6), "reverse": reverse, "label": f"expectation {terms} n={n} reverse={reverse} #{k}"}))
+    # symbolic: Pauli expansion of a generic matrix (every entry a pair of real unknowns)
+    for n, mk in [(1, "complex"), (1, "hermitian"), (1, "real"), (2, "complex"), (2, "hermitian")] + ([(2, "real"), (3, "real")] if tier == "thorough" else []):
+        items.append(("pexp", {"n": n, "mkind": mk, "label": f"pauli expansion of a generic {mk} {2**n}x{2**n} matrix"}))
+    # symbolic: expectation on a state whose amplitudes are all symbolic
+    sx_ops = [
+        ([[_ops({0: "Z"}), 1.0]], 2),
+        ([[_ops({1: "Z"}), 2.0]], 2),
+        ([[_ops({0: "X", 1: "Z"}), [0.0, 1.0]]], 2),
+        ([[_ops({0: "Y"}), 1.0], [_ops({1: "X"}), [0.5, -0.25]], [{}, 1.0]], 2),
+        ([[_ops({0: "Y"}), 1.0]], 1),
+    ]
+    if tier == "thorough":
+        sx_ops += [([[_ops({0: "Z", 2: "Y"}), 0.75], [_ops({1: "X"}), [0.25, -0.5]], [{}, 1.0]], 3), ([[_ops({2: "Z"}), 1.0]], 3), ([[_ops({0: "X", 1: "Y", 2: "Z"}), 1.0]], 3)]
+    for terms, n in sx_ops:
+        for mode, reverse in (("row", False), ("col", False), ("wf", False), ("wf", True)):
+            if n == 3 and mode == "col":
+                continue
+            items.append(("sexp", {"terms": terms, "n": n, "mode": mode, "reverse": reverse, "label": f"symbolic-state expectation {terms} n={n} mode={mode} reverse={reverse}"}))
+    # ground: coefficient/label vectors -> operator
+    for k, (coeffs, labels) in enumerate([
+        ([0.1, -0.4], [[1, 1, 0, 0], [2, 2, 3, 3]]),
+        ([1.5, [0.0, 2.0], -0.25, [1.0, -1.0]], [[0, 0], [0, 3], [2, 0], [1, 2]]),
+        ([2.0, 3.0], [[0, 1, 0], [0, 1, 0]]),
+        ([1e-7, -1e5], [[3], [1]]),
+        ([], []),
+    ]):
+        items.append(("labels", {"coeffs": coeffs, "labels": labels, "label": f"coeffs+labels #{k} {coeffs} {labels}"}))
     for n in (1, 2, 3):
         for mk in ("real", "complex", "hermitian", "sparse", "identity"):
             for k in range(1 if tier == "quick" or n == 3 else 4):
@@ -345,7 +611,9 @@ def run(ctx):
     }
     ctx.assume(
         "exact-real floats for the symbolic part",
-        "NOT decided by the solver (ground instances only): get_sparse_operator (scipy.sparse needs numeric dtypes), get_pauliop_from_matrix (coefficients travel through f-strings and complex(str)), get_expectation_value/expectation (sparse matvec)",
+        "NOT decided by the solver (ground instances only): get_sparse_operator (scipy.sparse needs numeric dtypes; its matrix is compared with the dense tensor-product oracle on concrete operators), the text hand-over inside get_pauliop_from_coeffs_and_labels (coefficients travel through f-strings and complex(str))",
+        "symbolic-state expectation: the sparse matrix is the one the REAL get_sparse_operator returns for the concrete operator; only its mat-vec is replaced by the dense product (scipy's kernels take numeric dtypes only)",
+        "symbolic Pauli expansion: get_pauliop_from_matrix runs on symbolic entries up to its final call, which is intercepted",
     )
     for it, out in pmap(work, items):
         ctx.merge(out)
@@ -361,7 +629,40 @@ def replay(data):
     vals = inp.get("values") or {}
     p = {k: v for k, v in inp.items() if k not in ("clause", "values")}
     try:
-        if clause in ("sparse", "expect", "matrix"):
+        if clause == "expansion-reproduces-matrix":
+            from orquestra.quantum.operators._utils import get_pauliop_from_matrix
+
+            M, _ = _matrix_entries(p, concrete=vals)
+            op = get_pauliop_from_matrix(M)
+            back = PL.dense(PL.cmap_of(op), p["n"])
+            d = float(np.abs(back - np.array(M, dtype=complex)).max())
+            return d > 1e-7 * max(1.0, float(np.abs(np.array(M, dtype=complex)).max())), f"Pauli expansion converts back with error {d:.3g}"
+        if clause == "expansion-labels":
+            return False, "structural (labels) - not replayed numerically"
+        if clause in ("expectation-is-quadratic-form", "expectation-raises"):
+            from orquestra.quantum.operators import get_expectation_value
+            from orquestra.quantum.operators._openfermion_utils.sparse_tools import expectation, get_sparse_operator
+            from orquestra.quantum.wavefunction import Wavefunction
+
+            n = p["n"]
+            v = np.array([complex(vals.get(f"a{i}_re", 0.5 if clause == "expectation-raises" else 0.0), vals.get(f"a{i}_im", 0.0)) for i in range(2**n)])
+            if clause == "expectation-raises":
+                v = v / np.linalg.norm(v)
+            op = op_from(p["terms"])
+            cm = {k: complex(c) for k, c in _merge(op).items()}
+            if p["reverse"]:
+                cm = {frozenset((n - 1 - q, l) for q, l in k): c for k, c in cm.items()}
+            want = v.conj() @ PL.dense(cm, n) @ v
+            try:
+                if p["mode"] == "wf":
+                    got = get_expectation_value(op, Wavefunction(v), reverse_operator=True) if p["reverse"] else get_expectation_value(op, Wavefunction(v))
+                else:
+                    got = expectation(get_sparse_operator(op, n), v.reshape(-1, 1) if p["mode"] == "col" else v)
+            except ValueError as e:
+                return clause == "expectation-raises", f"raised {e}"
+            d = abs(complex(got) - want)
+            return d > 1e-9 * max(1.0, abs(want)), f"value {got} vs quadratic form {want}"
+        if clause in ("sparse", "expect", "matrix", "labels"):
             r = Result("replay")
             _w_ground(r, clause, dict(p, label="replay"))
             return bool(r.d["candidates"]), (r.d["candidates"][0]["what"] if r.d["candidates"] else "ok")
